@@ -190,7 +190,10 @@ func exploreDump(p *Prog, fn *ssa.Function, c *Ctx) []dumpTrace {
 				}
 				dt.recs = append(dt.recs, e)
 			case "appendfloat":
-				if b, ok := isCstInt(e.Args[4]); ok {
+				if k4 := keyOf(e.Args[4]); strings.HasSuffix(k4, ".Type().Bits()") && strings.TrimSuffix(k4, ".Type().Bits()")+".Float()" == keyOf(e.Args[1]) {
+					// the width of the very value being formatted: right for both float kinds by construction
+					dt.floatBits = append(dt.floatBits, -1)
+				} else if b, ok := isCstInt(e.Args[4]); ok {
 					dt.floatBits = append(dt.floatBits, b)
 				}
 			}
@@ -429,6 +432,9 @@ func runC20(c *Ctx) {
 				}
 				for _, b := range dt.floatBits {
 					nFloat++
+					if b == -1 {
+						continue
+					}
 					switch {
 					case cls == "float32" && b != 32:
 						floatBad = append(floatBad, fmt.Sprintf("a Float32 value is formatted with bitSize %d: float32(0.1) is printed as 0.10000000149011612", b))
